@@ -10,7 +10,7 @@ CONSTANTS MaxDay,        \* last day of the model horizon
           StartDay       \* day on which the handler is created
 
 VARIABLES days,      \* set of day numbers for which a dated file exists
-          foreign,   \* subset of {"before", "after"}: foreign files present
+          foreign,   \* subset of ForeignKinds: foreign files present
           today,     \* day of the file being written
           n          \* retention
 
@@ -29,16 +29,19 @@ RolloverOK(old, newday, N, new) ==
           ELSE /\ \A r \in removed, q \in kept : r < q     \* only older files are removed
                /\ Cardinality(kept) >= need                \* the N-1 newest earlier ones are kept
 
+(* foreign files: names sorting before / after all dated names, a dated name with another extension, *)
+(* a dated log file of another root name that starts with this root name                           *)
+ForeignKinds == {"before", "after", "ext", "prefix"}
 RotInit == /\ n \in Retentions
            /\ today = StartDay
            /\ days \in {S \cup {StartDay} : S \in SUBSET (1 .. StartDay - 1)}
-           /\ foreign \in SUBSET {"before", "after"}
+           /\ foreign \in SUBSET ForeignKinds
 
 Rollover(k) ==
     /\ today + k <= MaxDay
     /\ today' = today + k
     /\ days' \in {D \in SUBSET (days \cup {today + k}) : RolloverOK(days, today + k, n, D)}
-    /\ foreign' \in SUBSET foreign          \* the statement is silent about foreign files
+    /\ foreign' = foreign                   \* only older log files are removed: nothing else disappears
     /\ UNCHANGED n
 
 RotNext == \E k \in 1 .. 2 : Rollover(k)
